@@ -156,6 +156,66 @@ Theorem concat_accepts_numbers : forall n fr b f t s,
 Proof. exact concat_accepts_numbers_lemma. Qed.
 Print Assumptions concat_accepts_numbers.
 
+(* numeric for (wave 5): init, limit and step are evaluated once, in this order, and used only
+   through their coercion: a numeral string in any of the three positions - whatever expression
+   delivered it - is the number it denotes; anything else is the error of class 6 on the line of
+   the statement, raised before the first iteration *)
+From GL Require Lua.ForFacts Lua.AssignFacts.
+Import ForFacts AssignFacts.
+
+Theorem numfor_operands_coerced : forall n cx en ln x a b c body s av s1 bv s2 cv s3 i lim step,
+  eval_e n cx ln en a s = Ret av s1 -> eval_e n cx ln en b s1 = Ret bv s2 ->
+  numfor_step n cx ln en c s2 = Ret cv s3 ->
+  tonum av = CNum i -> tonum bv = CNum lim -> tonum cv = CNum step ->
+  exec (S n) cx en (SNumFor ln x a b c body) s =
+  bind (numfor_loop n cx en x i lim step body s3) (fun sg s4 => Ret (sg, en) s4).
+Proof. exact numfor_coerced_lemma. Qed.
+Print Assumptions numfor_operands_coerced.
+
+Theorem numfor_same_operands : forall n cx en ln x a a' b b' c c' body s av av' s1 bv bv' s2 cv cv' s3,
+  eval_e n cx ln en a s = Ret av s1 -> eval_e n cx ln en a' s = Ret av' s1 ->
+  eval_e n cx ln en b s1 = Ret bv s2 -> eval_e n cx ln en b' s1 = Ret bv' s2 ->
+  numfor_step n cx ln en c s2 = Ret cv s3 -> numfor_step n cx ln en c' s2 = Ret cv' s3 ->
+  tonum av = tonum av' -> tonum bv = tonum bv' -> tonum cv = tonum cv' ->
+  exec (S n) cx en (SNumFor ln x a b c body) s = exec (S n) cx en (SNumFor ln x a' b' c' body) s.
+Proof. exact numfor_same_operands_lemma. Qed.
+Print Assumptions numfor_same_operands.
+
+Theorem numfor_string_literal : forall n cx en ln x sa sb sc fa fb fc body s,
+  text_to_f sa = PNum fa -> text_to_f sb = PNum fb -> text_to_f sc = PNum fc ->
+  exec (S (S n)) cx en (SNumFor ln x (EStr sa) (EStr sb) (Some (EStr sc)) body) s =
+  exec (S (S n)) cx en (SNumFor ln x (ENum fa) (ENum fb) (Some (ENum fc)) body) s.
+Proof. exact numfor_string_literal_lemma. Qed.
+Print Assumptions numfor_string_literal.
+
+Theorem numfor_bad_operand : forall n cx en ln x a b c body s av s1 bv s2 cv s3,
+  eval_e n cx ln en a s = Ret av s1 -> eval_e n cx ln en b s1 = Ret bv s2 ->
+  numfor_step n cx ln en c s2 = Ret cv s3 ->
+  not_out (tonum av) -> not_out (tonum bv) -> not_out (tonum cv) ->
+  tonum av = CNo \/ tonum bv = CNo \/ tonum cv = CNo ->
+  exec (S n) cx en (SNumFor ln x a b c body) s = Err (VFault 6 ln) s3.
+Proof. exact numfor_bad_operand_lemma. Qed.
+Print Assumptions numfor_bad_operand.
+
+(* multiple assignment to fields of one table (wave 5; companion of assign_locals_simultaneous):
+   field ki receives the i-th adjusted right value computed before any store; other fields, other
+   tables, cells and trace are untouched by the stores. Stated for distinct string keys, a table
+   without metatable and non-nil adjusted values. *)
+Theorem assign_fields_simultaneous : forall n cx en ln lhs r ks es s s1 vs s2,
+  mapM (assign_ref (S n) cx ln en) lhs s = Ret (map (field_ref r) ks) s1 ->
+  eval_list_with (eval_e (S n) cx ln en) (eval_multi (S n) cx ln en) es s1 = Ret vs s2 ->
+  NoDup ks -> (r < length (tabs s2))%nat -> t_meta (nth r (tabs s2) empty_tab) = None ->
+  Forall (fun v => is_nil v = false) (adjust (length ks) vs) ->
+  exists s3, exec (S (S n)) cx en (SAssign ln lhs es) s = Ret (SigNormal, en) s3 /\
+    (forall i, (i < length ks)%nat ->
+       kv_get (t_kv (nth r (tabs s3) empty_tab)) (VStr (nth i ks [])) = nth i vs VNil) /\
+    (forall k, ~ In k ks ->
+       kv_get (t_kv (nth r (tabs s3) empty_tab)) (VStr k) = kv_get (t_kv (nth r (tabs s2) empty_tab)) (VStr k)) /\
+    (forall j, j <> r -> nth j (tabs s3) empty_tab = nth j (tabs s2) empty_tab) /\
+    cells s3 = cells s2 /\ clos s3 = clos s2 /\ trace s3 = trace s2.
+Proof. exact assign_fields_lemma. Qed.
+Print Assumptions assign_fields_simultaneous.
+
 (* fuel monotonicity of the whole evaluator (induction over all 20 mutually recursive functions):
    more fuel only refines an OutOfFuel result, also inside the continuations of pending effects *)
 Theorem fuel_mono : forall n m cx ln en e s, (n <= m)%nat -> rle (eval_e n cx ln en e s) (eval_e m cx ln en e s).
@@ -230,6 +290,56 @@ Theorem vprog_validated : forall body p obs,
   VmCasesFacts.certified body p obs.
 Proof. exact VmCasesFacts.vprog_validated. Qed.
 Print Assumptions vprog_validated.
+
+(* OP_FORPREP / OP_FORLOOP (wave 5), two cooperating sites of the VM: the producer stores the
+   converted operands back - after a FORPREP that returned, the three hidden cells hold the numbers
+   the operands denote -, and the consumer, which type-asserts the three cells on every
+   iteration, never raises on such a state and keeps it while the loop continues *)
+From GL Require VMX.ForFacts.
+
+Theorem forprep_normalises : forall ml gf cl cf inst base s b s',
+  op_of_code (opGetOpCode inst) = Some OP_FORPREP ->
+  0 <= fr_localbase cf + opGetArgA inst ->
+  exec_op ml gf cl cf inst base s = VRet b s' ->
+  let RA := fr_localbase cf + opGetArgA inst in
+  exists v0 v1 v2 init limit step,
+    Get (vreg s) RA = Some v0 /\ Get (vreg s) (RA + 1) = Some v1 /\ Get (vreg s) (RA + 2) = Some v2 /\
+    tonum v0 = CNum init /\ tonum v1 = CNum limit /\ tonum v2 = CNum step /\
+    Get (vreg s') RA = Some (VNum (init - step)%float) /\
+    Get (vreg s') (RA + 1) = Some (VNum limit) /\
+    Get (vreg s') (RA + 2) = Some (VNum step) /\ b = false.
+Proof. exact VMX.ForFacts.forprep_normalises_lemma. Qed.
+Print Assumptions forprep_normalises.
+
+Theorem forloop_numbers_never_raise : forall ml gf cl cf inst base s i l st,
+  op_of_code (opGetOpCode inst) = Some OP_FORLOOP ->
+  let RA := fr_localbase cf + opGetArgA inst in
+  Get (vreg s) RA = Some (VNum i) -> Get (vreg s) (RA + 1) = Some (VNum l) -> Get (vreg s) (RA + 2) = Some (VNum st) ->
+  forall v s', exec_op ml gf cl cf inst base s <> VErr v s'.
+Proof. exact VMX.ForFacts.forloop_numbers_never_raise_lemma. Qed.
+Print Assumptions forloop_numbers_never_raise.
+
+Theorem forloop_keeps_numbers : forall ml gf cl cf inst base s b s' i l st,
+  op_of_code (opGetOpCode inst) = Some OP_FORLOOP ->
+  let RA := fr_localbase cf + opGetArgA inst in
+  0 <= RA ->
+  Get (vreg s) RA = Some (VNum i) -> Get (vreg s) (RA + 1) = Some (VNum l) -> Get (vreg s) (RA + 2) = Some (VNum st) ->
+  exec_op ml gf cl cf inst base s = VRet b s' ->
+  VMX.ForFacts.for_continues (i + st)%float l st = true ->
+  Get (vreg s') RA = Some (VNum (i + st)%float) /\ Get (vreg s') (RA + 1) = Some (VNum l) /\
+  Get (vreg s') (RA + 2) = Some (VNum st) /\ Get (vreg s') (RA + 3) = Some (VNum (i + st)%float) /\ b = false.
+Proof. exact VMX.ForFacts.forloop_keeps_numbers_lemma. Qed.
+Print Assumptions forloop_keeps_numbers.
+
+Theorem forprep_then_forloop : forall ml gf cl cf inst base s b s' ml' gf' cl' inst' base',
+  op_of_code (opGetOpCode inst) = Some OP_FORPREP ->
+  op_of_code (opGetOpCode inst') = Some OP_FORLOOP ->
+  opGetArgA inst' = opGetArgA inst ->
+  0 <= fr_localbase cf + opGetArgA inst ->
+  exec_op ml gf cl cf inst base s = VRet b s' ->
+  forall cf' v s'', fr_localbase cf' = fr_localbase cf -> exec_op ml' gf' cl' cf' inst' base' s' <> VErr v s''.
+Proof. exact VMX.ForFacts.forprep_then_forloop_lemma. Qed.
+Print Assumptions forprep_then_forloop.
 
 (* The full statement of C01 over the implementation: for every program the compiler's output run
    by the VM has the reference outcome. It is NOT proved (the compiler is not modelled in general);
@@ -460,3 +570,58 @@ Print Assumptions frag1_reference_run.
 Theorem frag1_compile_correct_thm : frag1_compile_correct.
 Proof. exact Frag1Glue.frag1_compile_correct_lemma. Qed.
 Print Assumptions frag1_compile_correct_thm.
+
+(* ---------------------------------------------------------------------------------------------
+   CC, the fragment F2 (coq/CC/Frag2Sem.v in_frag2) = F1 plus string literals as values: a string
+   constant (LOADK of a string) may be stored in a local, copied between locals, returned, be an
+   extra expression or the operand of `not`. Arithmetic and unary minus on an operand that may be
+   a string are excluded statically: in_frag2 computes the set of tainted names (locals that may
+   hold a string) and checks every statement against it; the VM's and the evaluator's coercion of
+   numeric strings is therefore never reached. Same end-to-end statement; front half
+   coq/CC/Frag2Facts.v and reference half coq/CC/Frag2Eval.v are ports of the F0/F1 proofs to the
+   invariant "registers / cells hold nil, booleans, numbers or strings, untainted locals hold no
+   string". *)
+From GL Require Import CC.Frag2Sem.
+From GL Require CC.Frag2Facts CC.Frag2Eval CC.Frag2Glue.
+
+Definition frag2_compile_correct : Prop :=
+  forall b p, in_frag2 b = true -> compile_frag b = Some p ->
+  exists n, forall fuel, (n <= fuel)%nat ->
+    is_skip (outcome_of (Run.run_program fuel no_devs b)) = false ->
+    outcome_of_vfin (run_proto fuel p) = outcome_of (Run.run_program fuel no_devs b).
+
+(* F2 contains F1 (hence F0): a program without string literals has no tainted name *)
+Theorem frag1_in_frag2 : forall b, in_frag1 b = true -> in_frag2 b = true.
+Proof. exact Frag2Facts.frag1_in_frag2. Qed.
+Print Assumptions frag1_in_frag2.
+
+(* front half on F2, for any set T of tainted names the statements are checked against *)
+Theorem frag2_chunk_correct : forall T b locals s u s',
+  stmts_frag2 T locals b = true -> CompFacts.cinv s locals -> compileChunk b s = Some (u, s') ->
+  len (cs_consts s') <= 262144 /\ CompFacts.prefix_of (cs_consts s) (cs_consts s') /\
+  exists seg, cs_code s' = seg ++ cs_code s /\ Forall CompFacts.u32 seg /\
+    forall K, CompFacts.prefix_of (cs_consts s') K -> forall rho rf fin,
+      CompFacts.env_rel rho locals rf -> Frag2Facts.rf_ok T locals rf ->
+      isem_code K (rev seg ++ [CompFacts.final_ret fin]) rf = prun2 rho b.
+Proof. exact Frag2Facts.chunk1_ok. Qed.
+Print Assumptions frag2_chunk_correct.
+
+Theorem frag2_compile_front_half : Frag2Glue.front_half2.
+Proof. exact Frag2Facts.front_half2_lemma. Qed.
+Print Assumptions frag2_compile_front_half.
+
+(* reference half on F2: the reference evaluator is prun2 (values: nil, booleans, numbers, strings) *)
+Theorem frag2_reference_run : forall b fuel d, in_frag2 b = true -> (FragEvalFacts.frag_fuel b <= fuel)%nat ->
+  match prun2 [] b with
+  | CRet vs => exists s', Run.run_program fuel d b = Run.FinOk vs s' /\ trace s' = [] /\ forallb is_sval vs = true
+  | CFault ln => exists s', Run.run_program fuel d b = Run.FinErr (VFault 2 ln) s' /\ trace s' = []
+  | CUnsup => Run.run_program fuel d b = Run.FinUnsup 1
+  | CStuck => False
+  end.
+Proof. exact Frag2Eval.frag2_run_lemma. Qed.
+Print Assumptions frag2_reference_run.
+
+(* THE theorem on F2 *)
+Theorem frag2_compile_correct_thm : frag2_compile_correct.
+Proof. exact Frag2Glue.frag2_compile_correct_lemma. Qed.
+Print Assumptions frag2_compile_correct_thm.
